@@ -67,6 +67,7 @@ func checkC16(r *Run) {
 		// … and every complete event reaches it: the decoder's read/taint discipline (C17's rules)
 		ruleA23(r, pb)
 		ruleReadErr(r, pb)
+		ruleWidth(r, pb) // integers of the event are printed at full 64-bit width (C08's rule): no value makes the decoder give up on the event
 	}
 	r.Floor("TIMELOC", 2)
 	r.Floor("QUOTE", 4)
